@@ -1748,7 +1748,19 @@ def _inline_temporaries(fn: ast.FunctionDef) -> None:
                     free = {n.id for n in ast.walk(s.value) if isinstance(n, ast.Name)}
                     rest = stmts[idx + 1:]
                     # names read by the expression must not be rebound in the rest of this block (nor, in a loop, anywhere in the function after)
-                    rebound = any(isinstance(n, ast.Name) and isinstance(n.ctx, (ast.Store, ast.Del)) and n.id in free for r in rest for n in ast.walk(r))
+                    def _rebinds(r, k_last):
+                        # a plain assignment stores its targets after its value is evaluated: if that statement holds the last use
+                        # (in its value), rebinding a name the expression reads there is harmless
+                        for n in ast.walk(r):
+                            if isinstance(n, ast.Name) and isinstance(n.ctx, (ast.Store, ast.Del)) and n.id in free:
+                                if k_last and isinstance(r, ast.Assign) and any(n is t for tg in r.targets for t in ast.walk(tg)) and all(isinstance(tg, ast.Name) for tg in r.targets):
+                                    continue
+                                return True
+                        return False
+
+                    use_stmt_idx = [k for k, r in enumerate(rest) if any(isinstance(n, ast.Name) and n.id == name and isinstance(n.ctx, ast.Load) for n in ast.walk(r))]
+                    last_use = max(use_stmt_idx) if use_stmt_idx else -1
+                    rebound = any(_rebinds(r, k == last_use and any(isinstance(n, ast.Name) and n.id == name for n in ast.walk(r.value)) if isinstance(r, ast.Assign) else False) for k, r in enumerate(rest) if k <= last_use) or any(_rebinds(r, False) for k, r in enumerate(rest) if k > last_use and False)
                     if rebound:
                         continue
                     uses = [n for r in rest for n in ast.walk(r) if isinstance(n, ast.Name) and n.id == name and isinstance(n.ctx, ast.Load)]
